@@ -5,7 +5,7 @@ package keygen
 
 // ---- round state invariants (established by the start function / the previous Finalize)
 //@ pred hok(h *round.Helper) := h != nil && h.hash != nil && h.hash.h != nil && h.info.Group != nil && !held(h.mtx)
-//@ pred r1ok(r *round1) := r != nil && hok(r.Helper) && r.privateShare != nil && r.publicKey != nil && r.verificationShares != nil && r.threshold >= 0 && r.threshold < 1000000
+//@ pred r1ok(r *round1) := r != nil && hok(r.Helper) && r.privateShare != nil && r.publicKey != nil && r.verificationShares != nil && r.threshold >= 0
 //@ pred r2ok(r *round2) := r != nil && r1ok(r.round1) && r.f_i != nil && r.Phi != nil && r.ChainKeys != nil && r.ChainKeyCommitments != nil
 //@ pred r3ok(r *round3) := r != nil && r2ok(r.round2) && r.shareFrom != nil
 
@@ -71,6 +71,8 @@ package keygen
 //@   ensures[C08] old(privateShare) != nil ==> scval(old(privateShare)) == old(scval(privateShare))
 //@   loop 1: invariant fresh(verificationSharesCopy)
 //@   loop 2: invariant fresh(verificationSharesCopy)
+// (induction on the session object) the first round starts from the state invariant its methods assume
+//@   ensures result1 == nil ==> (typeis(result0, *round1) && r1ok(result0.(*round1)))
 
 // ---- derivation (C14): a new configuration; the parent is left untouched; share + adjust, Y + adjust*G,
 // Y_j + adjust*G for every party, the given (or inherited) 32-byte chain key.
@@ -160,6 +162,10 @@ package keygen
 // (round.NewSession: every identifier of the session has a non-zero scalar, and the session contains this party)
 //@   requires forall(x, party.ID, inslice(r.Helper.partyIDs, x) ==> idsc(x) != s_zero()) && inslice(r.Helper.partyIDs, r.Helper.info.SelfID)
 //@   requires forall(x, party.ID, inslice(r.Helper.otherPartyIDs, x) ==> inslice(r.Helper.partyIDs, x))
+// (induction on the session object) on success the next round starts from the state invariant its methods assume
+//@   ensures result1 == nil ==> (typeis(result0, *round3) && r3ok(result0.(*round3)) && result0.(*round3).round2 == r)
 //@ func (*round1).Finalize
 //@   nopanic[C05]
 //@   requires r1ok(r) && out != nil && !closed(out)
+// (induction on the session object) on success the next round starts from the state invariant its methods assume
+//@   ensures result1 == nil ==> (typeis(result0, *round2) && r2ok(result0.(*round2)) && result0.(*round2).round1 == r && result0.(*round2).f_i.group != nil && each(result0.(*round2).f_i.coefficients, c, c != nil))
